@@ -699,6 +699,15 @@ def main():
     # one up-front build per configuration so that the workers only run CBMC
     for i in range(a.jobs):
         SLOTS.put(i)
+    # goto binaries of earlier runs accumulate in the target directories: start afresh beyond 8 GB
+    try:
+        sz = int(subprocess.run(["du", "-sm", BUILD], stdout=subprocess.PIPE, text=True).stdout.split()[0])
+        if sz > 8000 and not ALT_REPO:
+            for d in os.listdir(BUILD):
+                if d.startswith("kani-"):
+                    subprocess.run(["rm", "-rf", os.path.join(BUILD, d)])
+    except Exception:
+        pass
     for cfg in sorted(set(h["cfg"] for h in hs if not is_stub(h))):
         tb = time.time()
         cmd = ["cargo", "kani", "--target-dir", os.path.join(BUILD, "kani-" + cfg)] + CFG_FLAGS[cfg] + ["--only-codegen", "-Z", "unstable-options"]
